@@ -656,7 +656,7 @@ def mutate_sample(r, text):
     return "\n".join(lines)
 
 
-def lro_reply(codec_unused, response_type):
+def lro_reply(response_type):
     from google.longrunning import operations_pb2
     op = operations_pb2.Operation(name="operations/verif-1", done=True)
     op.response.type_url = "type.googleapis.com/" + response_type
@@ -664,7 +664,7 @@ def lro_reply(codec_unused, response_type):
     return base64.b64encode(op.SerializeToString()).decode()
 
 
-def check_present(facts, full, msg_dict, dyn, path=""):
+def check_present(facts, full, dyn, path=""):
     """oracle: required fields and one member of each real oneof are populated in the decoded request `dyn`
     (a dynamic message under the INPUT descriptors); returns [(key, description)]"""
     out = []
@@ -685,7 +685,7 @@ def check_present(facts, full, msg_dict, dyn, path=""):
                 key = "required-field-unset"
             out.append((key, f"required field {path}{fd.name} of {full} is not populated"))
         elif fd.type in (10, 11) and fd.label != 3:
-            out += check_present(facts, fd.type_name.lstrip("."), None, val, path + fd.name + ".")
+            out += check_present(facts, fd.type_name.lstrip("."), val, path + fd.name + ".")
     for fd in m.field:      # REQUIRED proto3-optional fields (not covered by `request_fields`, which mirrors `not field.oneof`)
         if facts.required(fd) and fd.proto3_optional and not dyn.HasField(fd.name):
             out.append(("required-proto3-optional-unset", f"required optional field {path}{fd.name} of {full} is not populated"))
@@ -702,7 +702,7 @@ def check_present(facts, full, msg_dict, dyn, path=""):
         else:
             sub = m.field[[x.name for x in m.field].index(which)]
             if sub.type in (10, 11):
-                out += check_present(facts, sub.type_name.lstrip("."), None, getattr(dyn, which), path + which + ".")
+                out += check_present(facts, sub.type_name.lstrip("."), getattr(dyn, which), path + which + ".")
     return out
 
 
@@ -733,7 +733,7 @@ def set_from_dict(dyn, d):
             setattr(dyn, k, v)
 
 
-def run_api(ctx, r, spec, label, expect_keys=()):
+def run_api(ctx, r, spec, label):
     payload = {"spec": spec}
     files = build_files(spec)
     facts = Facts(files)
@@ -885,7 +885,7 @@ def run_api(ctx, r, spec, label, expect_keys=()):
             s = {"file": e.get("file"), "function": fnames[0]}
             path_rpc = f"/{fs['package']}.{ss['name']}/{me['name']}"
             if me.get("lro"):
-                s["script"] = {path_rpc: [{"replies": [lro_reply(None, me["lro"][0])]}] * 3}
+                s["script"] = {path_rpc: [{"replies": [lro_reply(me["lro"][0])]}] * 3}
                 s["rest_script"] = [{"body": json.dumps({"name": "operations/verif-1", "done": True,
                                                          "response": {"@type": "type.googleapis.com/" + me["lro"][0]}})}]
             elif me.get("ss"):
@@ -970,7 +970,7 @@ def run_api(ctx, r, spec, label, expect_keys=()):
             raw = base64.b64decode(seen[0]["requests"][0])
             dyn = codec.cls(root_msg)()
             dyn.ParseFromString(raw)
-            probs = check_present(facts, root_msg, None, dyn)
+            probs = check_present(facts, root_msg, dyn)
             for key, what in probs:
                 ctx.fail(key, f"{fname}: {what}", pl)
             mo = model.get(("request", ss["name"], me["name"]))
@@ -1079,7 +1079,7 @@ def run(ctx):
         if files:
             seg_texts += [c for n, c in files.items() if n.startswith(SDIR) and n.endswith(".py")][:4]
     # ---- fresh APIs
-    for a in range(ctx.n(22, 380)):
+    for a in range(ctx.n(22, 320)):
         spec = gen_api(r, a, twists=0.04)
         ctx.count("stream", "generated")
         files = run_api(ctx, r, spec, spec["label"])
